@@ -188,7 +188,9 @@ impl C01 {
         let sim = new_sim(&plan.env, mode);
         let results: Results<Option<f64>> = Arc::new(Mutex::new(vec![]));
         let opts = Opts::new("c01_total", "counter under test").const_label("k", "v");
-        let (ctr, vec, reg): (Option<Ctr>, Option<CVec>, Option<Registry>) = match (&plan.origin, &plan.flavour) {
+        // a standalone counter is a single handle shared by reference (never cloned by the harness):
+        // code paths that depend on the handle count are exercised as well
+        let (ctr, vec, reg): (Option<Arc<Ctr>>, Option<CVec>, Option<Registry>) = match (&plan.origin, &plan.flavour) {
             (Origin::VecChild, Flavour::Float) => (None, Some(CVec::F(CounterVec::new(opts, &["l"]).unwrap())), None),
             (Origin::VecChild, Flavour::Int) => (None, Some(CVec::I(IntCounterVec::new(opts, &["l"]).unwrap())), None),
             (o, Flavour::Float) => {
@@ -200,7 +202,7 @@ impl C01 {
                 } else {
                     None
                 };
-                (Some(Ctr::F(c)), None, reg)
+                (Some(Arc::new(Ctr::F(c))), None, reg)
             }
             (o, Flavour::Int) => {
                 let c = IntCounter::with_opts(opts).unwrap();
@@ -211,7 +213,7 @@ impl C01 {
                 } else {
                     None
                 };
-                (Some(Ctr::I(c)), None, reg)
+                (Some(Arc::new(Ctr::I(c))), None, reg)
             }
         };
         // keep every handle alive until the run is judged (no address reuse inside a run)
@@ -222,12 +224,13 @@ impl C01 {
             let reg = reg.clone();
             let keep = keep.clone();
             spawn_threads(&sim, &plan.threads, &results, move |_ctx, _t, _i, op: &COp| {
-                let c = match (&ctr, &vec) {
-                    (Some(c), _) => c.clone(),
+                let child;
+                let c: &Ctr = match (&ctr, &vec) {
+                    (Some(c), _) => &**c,
                     (None, Some(v)) => {
-                        let c = v.child();
-                        keep.lock().unwrap().push(c.clone());
-                        c
+                        child = v.child();
+                        keep.lock().unwrap().push(child.clone());
+                        &child
                     }
                     _ => unreachable!(),
                 };
@@ -603,12 +606,12 @@ impl C11 {
         let sim = new_sim(&plan.env, mode);
         let results: Results<Option<i64>> = Arc::new(Mutex::new(vec![]));
         let opts = Opts::new("c11_gauge", "gauge under test");
-        let g: Gg = match (&plan.origin, &plan.flavour) {
+        let g: Arc<Gg> = Arc::new(match (&plan.origin, &plan.flavour) {
             (Origin::VecChild, Flavour::Float) => Gg::F(GaugeVec::new(opts, &["l"]).unwrap().with_label_values(&["x"])),
             (Origin::VecChild, Flavour::Int) => Gg::I(IntGaugeVec::new(opts, &["l"]).unwrap().with_label_values(&["x"])),
             (_, Flavour::Float) => Gg::F(Gauge::with_opts(opts).unwrap()),
             (_, Flavour::Int) => Gg::I(IntGauge::with_opts(opts).unwrap()),
-        };
+        });
         {
             let g = g.clone();
             spawn_threads(&sim, &plan.threads, &results, move |_ctx, _t, _i, op: &GOp| g.apply(op));
